@@ -165,6 +165,34 @@ def run(tier='quick', seed=0):
             eqs.append((rng.choice(cs), rng.choice(cs)))
         check_eqs(eqs, nconst)
 
+    # applications whose two arguments lie in ONE class (f(a, a), f(a, b) with a = b merged before or after), with the
+    # class then absorbed step by step into larger ones that carry applications of their own: use-list entries have to
+    # survive every re-keying.  Own random stream; a fixed six-equation scenario in all its merge orders.
+    rng2 = random.Random('%s/same-class-args' % seed)
+    base = [(('c0', 'c0'), 'c5'), (('c3', 'c3'), 'c6'), ('c1', 'c3'), ('c2', 'c3'), ('c0', 'c4'), ('c4', 'c3')]
+    perms = list(itertools.permutations(base))
+    if tier == 'quick':
+        perms = rng2.sample(perms, 120)
+    saved_sample = rng.sample
+    for order in perms:
+        rng.sample = lambda xs, k, _o=list(order): list(_o)       # check_eqs draws its extra orders here: use ours
+        try:
+            check_eqs(list(order), 7)
+        finally:
+            rng.sample = saved_sample
+    for it in range(150 if tier == 'quick' else 3000):
+        nconst = rng2.randint(5, 8)
+        cs = ['c%d' % i for i in range(nconst)]
+        eqs = []
+        for _ in range(rng2.randint(2, 3)):
+            x = rng2.choice(cs)
+            y = x if rng2.random() < 0.6 else rng2.choice(cs)
+            eqs.append(((x, y), rng2.choice(cs)))
+        for _ in range(rng2.randint(3, 6)):
+            eqs.append((rng2.choice(cs), rng2.choice(cs)))
+        rng2.shuffle(eqs)
+        check_eqs(eqs, nconst)
+
     # HOL wrapper: explanation is a checker-accepted theorem with hypotheses among the merged equations
     try:
         from logic import basic
